@@ -511,6 +511,9 @@ func (x *searcher) explore(depth int, ops []Op) {
 
 func main() {
 	flag.Parse()
+	if *fDieAt >= 0 {
+		dieChild()
+	}
 	r := vlib.Start(*fProp)
 	x := &searcher{r: r, prop: *fProp, roots: make(chan string, 64)}
 	for i := 0; i < 32; i++ {
